@@ -7,7 +7,8 @@ Inductive case :=
 (* fault sequence: n failed announces then a reply listing `peers`, while `interested` peers are already
    being downloaded from; what the harness saw: every pumped command came back (true) or the manager
    was blocked (false); the peers contacted afterwards (sorted) and the candidates left (in order) *)
-| CFaults (n : N) (peers : list N) (interested : N) (pumps : list bool) (contacted cands : list N).
+| CFaults (n : N) (peers : list N) (interested : N) (pumps : list bool) (contacted cands : list N)
+          (kill_served : option bool).     (* a connection ending while the tracker was failing was handled at once *)
 
 (* model of the scenario: the transition system under the schedule "tracker runs until it sleeps or
    blocks, then the manager handles one command" that the harness realises *)
@@ -85,10 +86,13 @@ Definition has_str_failure (d : dict) : bool :=
 
 Definition code (c : case) : N :=
   match c with
-  | CFaults n peers interested pumps contacted cands =>
+  | CFaults n peers interested pumps contacted cands kill_served =>
       let '(mp, mc, mk) := faults_model n peers interested in
-      let k := list_eqb Bool.eqb mp pumps && list_eqb N.eqb mc contacted && list_eqb N.eqb mk cands in
-      (if k then 0 else 1) + (if faults_spec n peers interested pumps contacted cands then 0 else 2 + 4 * 2)
+      (* the model's manager can always take another event before the tracker succeeded (C19_faults_never_blocked) *)
+      let k := list_eqb Bool.eqb mp pumps && list_eqb N.eqb mc contacted && list_eqb N.eqb mk cands
+               && match kill_served with Some b => Bool.eqb b Session_join_tracker_only_on_resp || b | None => true end in
+      let o := faults_spec n peers interested pumps contacted cands && match kill_served with Some b => b | None => true end in
+      (if k then 0 else 1) + (if o then 0 else 2 + 4 * 2)
   | CResp body impl =>
       let model := do t <- tracker_resp_of body; Ok (peers_out t) in
       let k := res_eqb peers_eqb model impl in
